@@ -322,7 +322,12 @@ func main() {
 		bases = append(bases, refdil.EncodeHint(&h))
 	}
 	decode := func(c *drv.Ctx, i int64, s []byte, what string) {
-		h, rc := dilithium.VerifUnpackHint(s)
+		var h [8][256]int32
+		var rc int
+		if o := drv.Call(func() { h, rc = dilithium.VerifUnpackHint(s) }); o != "ok" {
+			c.Fail(i, "decoder-faulted:"+o[:20], map[string]any{"case": what, "hint_section": drv.FullHex(s), "observed": o})
+			return
+		}
 		rh, ok := refdil.DecodeHint(s)
 		if (rc == 0) != ok {
 			c.Fail(i, fmt.Sprintf("decoder-accepts=%v-reference=%v", rc == 0, ok), map[string]any{"case": what, "hint_section": drv.FullHex(s)})
